@@ -167,6 +167,9 @@ pub fn type_tags(r: &Ref, ty: &str) -> BTreeSet<String> {
                             tags.insert("array.modifier".into());
                         }
                         if let Elem::Ty(t) = elem {
+                            if matches!(r.d.get(t), Some(Decl::Record { parent: Some(_), .. })) {
+                                tags.insert("array.elem=derived-struct".into());
+                            }
                             walk(r, t, tags, seen, depth + 1);
                         }
                     }
@@ -903,7 +906,14 @@ fn check_c06(ctx: &Ctx, ti: usize, r: &Ref, case: &Case) -> CaseResult {
                     // some admissible child must be rejected by the reference
                     let rejected = adm_c.iter().any(|x| r.decode(x, &pbytes, true, &mut ev).is_err());
                     if !rejected {
-                        res.fails.push(fail("specialize", format!("error-but-children-parse:Err({kind})"), format!("parent {pj}; admissible {:?}", adm_c)));
+                        let mut dt = Events::new();
+                        for x in &adm_c {
+                            dt.extend(type_tags(r, x).into_iter().map(|t| format!("child:{t}")));
+                            for y in r.d.descendants_of(x) {
+                                dt.extend(type_tags(r, &y).into_iter().map(|t| format!("child:{t}")));
+                            }
+                        }
+                        res.fails.push(fail_ev("specialize", format!("error-but-children-parse:Err({kind})"), format!("parent {pj}; admissible {:?}", adm_c), dt));
                     }
                     res.outcome = format!("Err({kind})");
                 }
@@ -921,7 +931,10 @@ fn check_c06(ctx: &Ctx, ti: usize, r: &Ref, case: &Case) -> CaseResult {
                     (Err(DecErr::ConstraintValue), Out::Err { kind, .. }) if kind == "ConstraintValueError" => {}
                     (Err(k), Out::Err { kind, .. }) if *k != DecErr::ConstraintValue && kind != "ConstraintValueError" => {}
                     (_, Out::Panic(_)) => {} // C01's business
-                    (w, g) => res.fails.push(fail("try_from", format!("down-conversion:{}", g.kind()), format!("{} -> {}: reference {:?}, rust {}", c.ancestor, c.descendant, w.as_ref().map(|x| x.0.to_string()), out_brief(g)))),
+                    (w, g) => {
+                        let dt: Events = type_tags(r, &c.descendant).into_iter().map(|t| format!("child:{t}")).collect();
+                        res.fails.push(fail_ev("try_from", format!("down-conversion:{}", g.kind()), format!("{} -> {}: reference {:?}, rust {}", c.ancestor, c.descendant, w.as_ref().map(|x| x.0.to_string()), out_brief(g)), dt))
+                    }
                 }
             }
             res.events = ev;
